@@ -19,6 +19,10 @@ ALPHABET = [
     ("DirMovedEvent", "a", "b", False, 0),
     ("FileModifiedEvent", "a", "", False, 0),
     ("FileClosedEvent", "a", "", False, 0),
+    # base-class instances and a user subclass: equal field values, different class
+    ("FileSystemMovedEvent", "a", "b", False, 0),
+    ("FileSystemEvent", "a", "", False, 0),
+    ("SubFileCreatedEvent", "a", "", False, 0),
 ]
 
 
@@ -45,7 +49,7 @@ class C16(Scenario):
 
     # exhaustive part: every put/get sequence of length <= 6 over a two-item alphabet (3^1 + ... + 3^6 = 1092 programs),
     # for each of three alphabets whose two members differ in class only, in one field only, in the watch only
-    ENUM_ALPHABETS = [(0, 1), (0, 3), (0, 4)]
+    ENUM_ALPHABETS = [(0, 1), (0, 3), (0, 4), (6, 10), (0, 12), (0, 5)]
     ENUM_PER_ALPHABET = sum(3 ** n for n in range(1, 7))
 
     def gen_enum(self, idx):
@@ -116,9 +120,12 @@ class C16(Scenario):
         prims.enable_monitoring([bricks, qmod], instr_funcs=[SRQ.put, SRQ._put, SRQ._get], instr_on=bool(case["sched"].get("instr")))
         watches = [api.ObservedWatch("/w0", recursive=True), api.ObservedWatch("/w1", recursive=True)]
 
+        class SubFileCreatedEvent(wev.FileCreatedEvent):
+            """A user subclass next to its parent: same field values, different class."""
+
         def mk(i):
             cls, src, dest, syn, w = ALPHABET[i]
-            C = getattr(wev, cls)
+            C = SubFileCreatedEvent if cls == "SubFileCreatedEvent" else getattr(wev, cls)
             ev = C(src, dest, is_synthetic=syn) if dest else C(src, is_synthetic=syn)
             return (ev, watches[w])
 
